@@ -134,6 +134,34 @@ func gen(r *rand.Rand, thorough bool, i int) []string {
 		ops = append(ops, evLine(3, event.TagAddBridgeMint, client, "p",
 			fmt.Sprintf("UserID=s%s;MintNonce=n%d;Amount=n%d;Signers=l%s", client, nonce["m"+client], num(r, small), strings.Join(sg, ","))))
 	}
+	if i%12 == 7 || i%12 == 11 {
+		// row order: for one table, a key that is inserted and then updated in this block, a key that is only inserted,
+		// a key that is only updated (row absent in the stand-in: the update matches nothing); index = key, as emitted
+		sp := tblSpecs[r.Intn(len(tblSpecs))]
+		val := func() uint64 { return uint64(1 + r.Intn(1000)) }
+		item := func(tag event.EventTag, k string, v uint64) string {
+			return randItem(r, tag, true, map[string]string{sp.key: "s" + k, sp.val: fmt.Sprintf("n%d", v)})
+		}
+		ka, kb, kc := "ka"+ident(r, "", 3), "kb"+ident(r, "", 3), "kc"+ident(r, "", 3)
+		if sp.addField != "" {
+			ops = append(ops, evLine(3, sp.ins, ka, "v", randItem(r, sp.ins, true, map[string]string{sp.key: "s" + ka, sp.val: "n0"})))
+			ops = append(ops, evLine(3, sp.ins, kb, "v", randItem(r, sp.ins, true, map[string]string{sp.key: "s" + kb, sp.val: "n0"})))
+			for j := 0; j < 1+r.Intn(2); j++ {
+				ops = append(ops, evLine(3, sp.addTag, ident(r, "prov", 2), "p", randItem(r, sp.addTag, true,
+					map[string]string{sp.addField: fmt.Sprintf("m%s:%d,%s:%d", ka, val(), kc, val()), "DelegatePenalties": "m"})))
+			}
+		} else {
+			ops = append(ops, evLine(3, sp.ins, ka, vp(r), item(sp.ins, ka, val())))
+			ops = append(ops, evLine(3, sp.ins, kb, vp(r), item(sp.ins, kb, val())))
+			for j := 0; j < 1+r.Intn(2); j++ {
+				u := sp.upds[r.Intn(len(sp.upds))]
+				ops = append(ops, evLine(3, u, ka, vp(r), item(u, ka, val())))
+			}
+			u := sp.upds[r.Intn(len(sp.upds))]
+			ops = append(ops, evLine(3, u, kc, vp(r), item(u, kc, val())))
+		}
+		return append(ops, "merge", "rows")
+	}
 	if i%12 == 5 {
 		// commit path with a fault: only bridge traffic (the only handlers sqlite can stand in for), at least one burn;
 		// the burn_tickets insert fails once, finalization retries
@@ -288,6 +316,10 @@ var fixed = [][]string{
 	{"block 13 blk", "ev 3 64 i:0xA n", "merge", "handle"},
 	// empty slice of tickets: merged event with no payload, the handler refuses it
 	{"block 14 blk", "ev 3 64 i:0xA s", "merge", "handle"},
+	// row order: a client's first read-pool lock and a further lock in one block; a blobber added and restaked; a delegate
+	// pool added and rewarded in one block
+	{"block 19 blk", "ev 3 69 i:c1 v UserID=sc1;Balance=n100", "ev 3 70 i:c1 v UserID=sc1;Balance=n250", "merge", "rows"},
+	{"block 20 blk", "ev 3 26 i:p1 v PoolID=sp1;Reward=n0", "ev 3 24 i:rb1 p ID=sb1;Reward=n0;DelegateRewards=mp1:5;DelegatePenalties=m", "merge", "rows"},
 	// the commit path: the burn-ticket insert fails once → the attempt fails and commits nothing, the retry stores the ticket
 	{"block 16 blk", "ev 3 65 i:c1 v Burner=sc1;Amount=n10", "ev 3 64 i:0xA p EthereumAddress=s0xA;Hash=sh1;Amount=n10;Nonce=n1",
 		"merge", "process fail", "process ok"},
@@ -496,8 +528,67 @@ func oracleCommit(ops, outs []string) *corr.Violation {
 	return nil
 }
 
+// oracleRows: after a block, every row of a table holds the last value the block's events wrote to it IN EMISSION
+// ORDER (insert creates the row, an update of an absent row matches nothing). The implementation's `rows` answer is the
+// real merged events applied in the real list order.
+func oracleRows(ops, outs []string) *corr.Violation {
+	type em struct {
+		tag  event.EventTag
+		item string
+	}
+	var ems []em
+	for i, op := range ops {
+		w := strings.Fields(op)
+		if len(w) == 0 {
+			continue
+		}
+		switch w[0] {
+		case "block":
+			ems = nil
+		case "ev":
+			e, ok := parseEv(w)
+			if !ok || outs[i] != "ok" || e.typ != int(event.TypeStats) {
+				continue
+			}
+			if e.dk != "v" && e.dk != "p" {
+				return nil
+			}
+			ems = append(ems, em{e.tag, e.items[0]})
+		case "rows":
+			if !strings.HasPrefix(outs[i], "rows") {
+				continue
+			}
+			got := map[int]string{}
+			for _, f := range strings.Fields(outs[i])[1:] {
+				p := strings.SplitN(f, ":", 2)
+				id, _ := strconv.Atoi(p[0])
+				got[id] = p[1]
+			}
+			for _, sp := range tblSpecs {
+				var ro []rowOp
+				for _, e := range ems {
+					ro = append(ro, rowOpsOf(sp, e.tag, e.item)...)
+				}
+				want := applyRowOps(ro)
+				g := parsePairs(got[sp.id])
+				if len(want) == 0 && len(g) == 0 {
+					continue
+				}
+				if !reflect.DeepEqual(want, g) {
+					return &corr.Violation{Signature: "C20:update-applied-before-insert:" + sp.name, Ops: ops, Impl: outs,
+						Message: fmt.Sprintf("op %d: table %s after the block holds %v; the block's events in emission order leave %v", i, sp.name, g, want)}
+				}
+			}
+		}
+	}
+	return nil
+}
+
 func oracle(ops, outs []string) *corr.Violation {
 	if v := oracleCommit(ops, outs); v != nil {
+		return v
+	}
+	if v := oracleRows(ops, outs); v != nil {
 		return v
 	}
 	mk := func(sig, msg string) *corr.Violation {
